@@ -1,12 +1,17 @@
 """C09 — quantizer configuration round-trip (DESIGN.md §4 C09).
 
-static tie   : constructor signatures (names, order, defaults) of all registered classes and the
-               registry contents, read from the live objects, vs the model's tables (exhaustive).
+static tie   : constructor signatures (names, order, defaults) of all registered classes, the key
+               list of get_config() (hence which constructor arguments it omits) and the registry
+               contents, read from the live objects, vs the model's tables (exhaustive).
 behavioural  : option lattice of every class -> real get_config() vs model getConfig, the three
                rebuild routes vs the model's verdict and rebuilt fields.
 clause oracle: rebuilt quantizer must not raise and must give bit-identical outputs / scale
                (and gradients) on probe tensors; a failure is attributed to the constructor
-               option(s) whose restoration alone repairs it.
+               option(s) whose restoration alone repairs it.  Every route is run TWICE on the SAME
+               configuration object (taken once from get_config() / serialize_keras_object): the
+               second rebuild must equal the first, and no route may modify the configuration it
+               is handed (a from_config that pops a key damages every later rebuild from the
+               same dictionary).
 """
 import inspect
 
@@ -15,6 +20,46 @@ import numpy as np
 from .. import core, qlattice as L
 
 STOCHASTIC = {"bernoulli", "stochastic_binary", "stochastic_ternary"}
+
+# list-valued scale_axis / elements_per_scale and combinations of the options that get_config
+# used to omit (fix round): swept in addition to the shared lattice of qkv.qlattice
+EXTRA = {
+    "quantized_bits": [
+        {"alpha": "auto", "scale_axis": [0, 1]},
+        {"bits": 4, "alpha": "auto_po2", "scale_axis": [0, 1], "elements_per_scale": [2, 3]},
+        {"bits": 4, "alpha": "auto_po2", "scale_axis": 1, "elements_per_scale": 3,
+         "min_po2_exponent": -1, "max_po2_exponent": 0, "use_ste": False},
+    ],
+    "binary": [
+        {"alpha": "auto_po2", "scale_axis": [0, 1], "elements_per_scale": [2, 3]},
+        {"alpha": "auto_po2", "scale_axis": 1, "elements_per_scale": 3, "min_po2_exponent": -1,
+         "max_po2_exponent": 0},
+    ],
+    "quantized_linear": [{"bits": 4, "alpha": "auto", "scale_axis": [0, 1]}],
+    "quantized_hswish": [{"bits": 6, "integer": 2, "alpha": "auto", "scale_axis": [0, 1]},
+                         {"bits": 6, "integer": 2, "alpha": "auto_po2", "scale_axis": 0,
+                          "relu_shift": 2, "relu_upper_bound": 4}],
+    "quantized_relu": [{"bits": 4, "integer": 1, "relu_upper_bound": 1.5, "is_quantized_clip": False,
+                        "use_ste": False}],
+    "bernoulli": [{"alpha": "auto", "temperature": 0.25, "use_real_sigmoid": False}],
+}
+# frozen (post-training) scales: scalar and per-channel, under both auto alphas
+EXTRA["quantized_bits"] += [
+    {"bits": 4, "alpha": "auto_po2", "post_training_scale": L.A2},
+    {"bits": 4, "alpha": "auto", "post_training_scale":
+     np.array([0.5, 1.0, 2.0, 0.25, 1.0, 4.0], dtype=np.float32)},
+    {"bits": 4, "alpha": "auto_po2", "scale_axis": 1, "post_training_scale":
+     np.array([0.5, 1.0, 2.0, 0.25, 1.0, 4.0], dtype=np.float32)},
+]
+
+
+def _cfg_canon(cfg):
+  """value-level canonical form of a configuration dictionary (ndarray and list of the same
+  numbers are identified: the model does not distinguish them either)"""
+  try:
+    return L.canon_env(L.enc_env(cfg))
+  except Exception as e:  # pylint: disable=broad-except
+    return ["<unencodable: %s>" % L.err_tag(e), sorted(map(str, cfg))]
 
 
 def _build(cls, kw):
@@ -37,7 +82,8 @@ def run(run: core.Run, tier: str):
   rng = np.random.default_rng(run.seed)
   run.extra["rule"] = (
       "per class: default, every option value under every context of qkv.qlattice.LATTICE, plus "
-      "option pairs (36 seeded pairs in quick, all pairs + 60 triples in thorough); non-trivial = "
+      "option pairs (36 seeded pairs in quick, all pairs + 60 triples in thorough), plus the fixed "
+      "list-valued / formerly-omitted option combinations of EXTRA; non-trivial = "
       "distinct (class, keyword set); probes = fixed 4x6 tensor with distinct rows/columns and "
       "out-of-range values, a seeded 4x6 and a seeded rank-4 tensor; both learning phases for "
       "stochastic configurations, tf.random seed reset before every call")
@@ -77,6 +123,24 @@ def run(run: core.Run, tier: str):
     mod = model_cls.get(name, {}).get("params")
     if impl != mod:
       run.disagree("static.signature", {"class": name}, impl, mod)
+    # get_config key list of the default instance (dict order) and the constructor arguments it
+    # omits, vs the model's cfgSpec / dropped
+    run.case(("static", "config_keys", name))
+    run.compared += 1
+    try:
+      keys = list(cls().get_config().keys())
+    except Exception as e:  # pylint: disable=broad-except
+      keys = ["<raises %s>" % L.err_tag(e)]
+    omitted = [p[0] for p in impl if p[0] not in keys]
+    mk, md = model_cls.get(name, {}).get("config_keys"), model_cls.get(name, {}).get("dropped")
+    if keys != mk or omitted != md:
+      run.disagree("static.config_keys", {"class": name}, {"keys": keys, "omitted": omitted},
+                   {"keys": mk, "omitted": md})
+    extra_keys = [k for k in keys if k not in [p[0] for p in impl]]
+    if extra_keys:
+      # a key the constructor does not accept makes from_config(get_config()) a TypeError
+      run.violate("config_keys_accepted", {"class": name, "keys": ",".join(extra_keys)},
+                  {"get_config_keys": keys, "constructor": [p[0] for p in impl]}, mirrored=False)
   try:
     R.lookup_quantizer("no_such_quantizer")
     run.disagree("static.registry", {"lookup": "no_such_quantizer"}, "no error", "KeyError")
@@ -93,7 +157,7 @@ def run(run: core.Run, tier: str):
     if cls is None:
       continue
     names = [p[0] for p in model_cls[name]["params"]]
-    for kind, kw in L.configs(name, tier, rng):
+    for kind, kw in L.configs(name, tier, rng) + [("extra", kw) for kw in EXTRA.get(name, [])]:
       rec = {"class": name, "kw": kw, "kind": kind}
       line = {"op": "roundtrip", "cls": name, "args": [], "kw": L.enc_env(kw)}
       lines.append(line)
@@ -121,31 +185,62 @@ def run(run: core.Run, tier: str):
       rec["call_raises"] = any(isinstance(v, tuple) and v and v[0] == "raises" for v in o0.values())
       if rec["call_raises"]:
         run.count("original_call_raises")
-      routes = {}
+      routes, routes2, mutated = {}, {}, {}
       first_ok = None
+      # ONE configuration object per kind of route, reused for both rebuilds of the route (and
+      # cfg0 for both dictionary routes), never copied: what a caller holding a config does
+      cfg0 = q.get_config()
+      snap0 = _cfg_canon(cfg0)
+      try:
+        ser = tf.keras.utils.serialize_keras_object(q)
+        snap_ser = _cfg_canon(ser["config"]) if isinstance(ser, dict) and "config" in ser else None
+      except Exception as e:  # pylint: disable=broad-except
+        ser, snap_ser = e, None
       for route in ("from_config", "get_quantizer", "keras"):
-        try:
-          if route == "from_config":
-            q2 = cls.from_config(dict(q.get_config()))
-          elif route == "get_quantizer":
-            q2 = Q.get_quantizer({"class_name": name, "config": dict(q.get_config())})
+        for attempt in (1, 2):
+          dest = routes if attempt == 1 else routes2
+          try:
+            if route == "from_config":
+              q2 = cls.from_config(cfg0)
+            elif route == "get_quantizer":
+              q2 = Q.get_quantizer({"class_name": name, "config": cfg0})
+            else:
+              if isinstance(ser, Exception):
+                raise ser
+              q2 = tf.keras.utils.deserialize_keras_object(ser, custom_objects={name: cls})
+            a2 = L.attrs(q2, names)
+            if attempt == 2 and "ok" in routes.get(route, {}) and a2 == routes[route]["ok"]:
+              # same stored fields as the first rebuild of this route: same verdict
+              dest[route] = {"ok": a2, "kinds": routes[route]["kinds"]}
+            elif first_ok is not None and a2 == first_ok[0]:
+              kinds = first_ok[1]          # identical stored fields as the first route
+              o2 = L.observe(q2, xs[:1], phases)
+              if L.obs_diff({k: v for k, v in o0.items() if k.endswith("_0")}, o2) - kinds:
+                kinds = kinds | L.obs_diff({k: v for k, v in o0.items() if k.endswith("_0")}, o2)
+              dest[route] = {"ok": a2, "kinds": sorted(kinds)}
+            else:
+              o2 = L.observe(q2, xs, phases)
+              kinds = L.obs_diff(o0, o2)
+              if first_ok is None:
+                first_ok = (a2, kinds)
+              dest[route] = {"ok": a2, "kinds": sorted(kinds)}
+          except Exception as e:  # pylint: disable=broad-except
+            dest[route] = {"err": L.err_tag(e), "msg": str(e)[:160]}
+          # the route must leave the configuration it was handed as it found it
+          if route == "keras":
+            now = _cfg_canon(ser["config"]) if snap_ser is not None else None
+            if now != snap_ser:
+              mutated.setdefault(route, []).append(attempt)
+              rec.setdefault("mutation", {"before": snap_ser, "after": now})
+              snap_ser = now
           else:
-            d = tf.keras.utils.serialize_keras_object(q)
-            q2 = tf.keras.utils.deserialize_keras_object(d, custom_objects={name: cls})
-          a2 = L.attrs(q2, names)
-          if first_ok is not None and a2 == first_ok[0]:
-            kinds = first_ok[1]          # identical stored fields as the first route
-            o2 = L.observe(q2, xs[:1], phases)
-            if L.obs_diff({k: v for k, v in o0.items() if k.endswith("_0")}, o2) - kinds:
-              kinds = kinds | L.obs_diff({k: v for k, v in o0.items() if k.endswith("_0")}, o2)
-          else:
-            o2 = L.observe(q2, xs, phases)
-            kinds = L.obs_diff(o0, o2)
-            if first_ok is None:
-              first_ok = (a2, kinds)
-          routes[route] = {"ok": a2, "kinds": sorted(kinds)}
-        except Exception as e:  # pylint: disable=broad-except
-          routes[route] = {"err": L.err_tag(e), "msg": str(e)[:160]}
+            now = _cfg_canon(cfg0)
+            if now != snap0:
+              mutated.setdefault(route, []).append(attempt)
+              rec.setdefault("mutation", {"before": snap0, "after": now})
+              snap0 = now
+      rec["routes2"] = routes2
+      rec["mutated"] = mutated
       rec["routes"] = routes
       # attribution of an observable difference to constructor options
       ok = [r for r in routes.values() if "ok" in r]
@@ -209,6 +304,40 @@ def run(run: core.Run, tier: str):
         mirrored = False
     if "diff_fields" in rec and o["diff_fields"] is not None and rec["diff_fields"] != o["diff_fields"]:
       mirrored = False
+    # ---- second rebuild from the SAME configuration object: the model is a pure function of the
+    #      configuration, so it gives the first answer again
+    for route, mkey in (("from_config", "from_config"), ("get_quantizer", "get_quantizer"),
+                        ("keras", "from_config")):
+      r, m = rec["routes2"][route], o[mkey]
+      run.compared += 1
+      run.count("route2_%s_%s" % (route, "ok" if "ok" in r else r["err"]))
+      if ("err" in r) != ("err" in m) or ("err" in r and r["err"] != m["err"]):
+        run.disagree("route.%s.second" % route, case, r.get("err", "ok"), m.get("err", "ok"))
+        if "err" in r:
+          run.violate("rebuild_raises", {"class": name, "error": r["err"], "rebuild": "second", "route": route},
+                      {"kw": line["kw"], "msg": r.get("msg"),
+                       "replay": "q=%s(**kw); c=q.get_config(); %s.from_config(c); %s.from_config(c)"
+                                 % (name, name, name)}, mirrored=False)
+      elif "ok" in r:
+        if L.canon_env(list(r["ok"].items())) != L.canon_env(m["ok"]):
+          run.disagree("route.%s.second.fields" % route, case, L.canon_env(list(r["ok"].items())),
+                       L.canon_env(m["ok"]))
+        first = rec["routes"][route]
+        if "ok" in first and r["ok"] != first["ok"]:
+          lost = [n for n in r["ok"] if r["ok"][n] != first["ok"][n]]
+          k2 = set(r["kinds"])
+          clause = ("same_output" if k2 & {"output", "scale"} else "same_gradient") if k2 else "second_rebuild_equal"
+          run.count("second_rebuild_differs_%s" % name)
+          run.violate(clause, {"class": name, "field": "+".join(lost), "rebuild": "second", "route": route},
+                      {"kw": line["kw"], "differs": sorted(k2), "fields_changed_vs_first_rebuild": lost,
+                       "replay": "q=%s(**kw); c=q.get_config(); q1=%s.from_config(c); q2=%s.from_config(c); "
+                                 "q2(x) vs q(x)" % (name, name, name)}, mirrored=False)
+    for route, attempts in rec["mutated"].items():
+      run.count("config_modified_%s" % route)
+      run.violate("config_unmodified", {"class": name, "route": route},
+                  {"kw": line["kw"], "rebuilds_that_modified_it": attempts, **rec.get("mutation", {}),
+                   "replay": "q=%s(**kw); c=q.get_config(); before=copy.deepcopy(c); <route>(c); c vs before" % name},
+                  mirrored=False)
     # ---- clauses on the real behaviour
     errs = sorted({r["err"] for r in rec["routes"].values() if "err" in r})
     for e in errs:
@@ -232,9 +361,10 @@ def run(run: core.Run, tier: str):
     elif rec.get("diff_fields"):
       n_unobserved += 1
       run.count("field_reset_but_no_observable_difference")
-    if o.get("serializable") and (kinds or errs) and name != "quantized_hswish":
-      # the proved theorem says this cannot happen when model and code agree
-      run.disagree("theorem.same_function_partial", case, sorted(kinds) + errs, "equal instance")
+    if (kinds or errs) and "ok" in o["from_config"]:
+      # C09_same_function: cannot happen when model and code agree (every class, every instance)
+      run.disagree("theorem.same_function", case, sorted(kinds) + errs,
+                   "same class, same stored options (build-only options aside)")
   run.extra["reset_fields_without_observable_difference"] = n_unobserved
 
   # ------------------------------------------------------------------ malformed stream
